@@ -1254,6 +1254,17 @@ fn assemble_inner2(prog: &Prog, claimed: Option<&[usize]>, guess: Option<(&HashM
                 placements.push(Placement { item: idx, sub: 0, bank: cur, pos: banks[cur].cursor, size: 0, written: false });
             }
             Item::Const(..) => {
+                if let Some(la) = banks[cur].labelalign {
+                    let si = a.syms.iter().position(|s| s.item == idx).unwrap();
+                    if la != 0 && a.syms[si].path.len() == 1 {
+                        let abs = &banks[cur].addr * banks[cur].bits + banks[cur].cursor;
+                        if to_usize_z(&(((&abs % la) + la) % la)) != Some(0) {
+                            // customasm pads in front of a top-level *constant* as it does in front of a label; whether
+                            // `labelalign` is meant to do that is written down nowhere
+                            return unspec("top-level constant at an unaligned position in a bank with labelalign");
+                        }
+                    }
+                }
                 item_pos.insert(idx, (cur, banks[cur].cursor));
             }
             Item::Instr(_) => {
